@@ -2,7 +2,7 @@
 From Coq Require Import List ZArith Reals Lra Bool.
 Import ListNotations.
 Require Import PGM.Base.Num PGM.Model.Select PGM.Model.Factor PGM.Model.Region PGM.Proofs.SelectP PGM.Proofs.RegionP.
-Require Import PGM.Base.Alg PGM.Base.Sums PGM.Model.BP PGM.Model.LBP PGM.Proofs.BPrunP PGM.Proofs.BPlinkP PGM.Proofs.LbpP.
+Require Import PGM.Base.Alg PGM.Base.Sums PGM.Base.Qnn PGM.Model.BP PGM.Model.LBP PGM.Proofs.BPrunP PGM.Proofs.BPlinkP PGM.Proofs.LbpP.
 Open Scope R_scope.
 
 (* every pseudo-marginal both oracles return is belief_of total (accumulated log-belief): whatever the messages (any sweep count,
@@ -98,6 +98,26 @@ Print Assumptions C16_sweeps_reach_the_true_messages_up_to_scale.
 Print Assumptions C16_loopy_propagation_exact_on_trees_once_run_for_enough_sweeps.
 Print Assumptions C16_division_form.
 Print Assumptions C16_loopy_model_exact_on_trees.
+
+(* non-vacuity of C16_loopy_model_exact_on_trees: the bipartite tree of the chain of factors {a,b} - {b,c} (nodes 0,1 = factors, 2,3,4 = the
+   variables a,b,c), sizes 2, with a complete schedule: structure, schedule and junction-tree conditions hold, every subtree has height
+   <= 4, and after 4 sweeps the executable model returns the brute-force marginal of the first factor (total 10) *)
+Definition ex_scope (c : nat) : list nat := nth c [[0;1];[1;2];[0];[1];[2]] [].
+Definition ex_nbrs (c : nat) : list nat := nth c [[2;3];[3;4];[0];[0;1];[1]] [].
+Definition ex_sch : list (nat * nat) := [(2,0);(4,1);(1,3);(0,3);(3,0);(3,1);(0,2);(1,4)].
+Definition ex_psi (c : nat) : tbl QnnSF :=
+  match c with
+  | 0 => fun x => Qnn_of (Z.of_nat (1 + x 0 + 2 * x 1)) 1
+  | 1 => fun x => Qnn_of (Z.of_nat (2 + x 2)) (if Nat.eqb (x 1) 0 then 1 else 3)
+  | _ => fun _ => one QnnSF
+  end.
+Example C16_bipartite_chain_meets_hypotheses :
+  jt_okb [0;1;2] 5 ex_scope ex_nbrs ex_sch = true
+  /\ forallb (fun e => Nat.leb (height (tr ex_nbrs ex_sch (fst e) (snd e))) 4) ex_sch = true
+  /\ let fv := [(0,2);(0,3);(1,3);(1,4)] in let vf := [(2,0);(3,0);(3,1);(4,1)] in
+     map (fun cell => Qcanon.this (qv (@lbp_marginal QnnSF (fun _ => 2) [0;1;2] ex_scope ex_nbrs ex_psi fv vf 4 (Qnn_of 10 1) 0 (fun a => nth a cell 0)))) [[0;0;0];[0;1;0];[1;0;0];[1;1;0]]
+     = map (fun cell => Qcanon.this (qv (@brute QnnSF (fun _ => 2) [0;1;2] 5 ex_psi (Qnn_of 10 1) [0;1] (fun a => nth a cell 0)))) [[0;0;0];[0;1;0];[1;0;0];[1;1;0]].
+Proof. split; [|split]; vm_compute; reflexivity. Qed.
 
 (* PARTIAL (observed per run against the brute-force marginals, not proved): (1) that loopy_belief_propagation in log-space floats computes what the executable model Model/LBP.v computes in the semifield (division form with
    non-zero messages - finite potentials - instead of the product over the others): the extracted model is run on exact rationals against the code on every
